@@ -266,6 +266,9 @@ func checkC20(c c20Case) verdict {
 		code := ""
 		if strings.HasPrefix(call.Fn, "validate") {
 			code = mutate(ref.MustHOTP(call.Key, centre+uint64(int64(call.Dist)), d, a), call.Mut)
+			if call.Mut == 8 {
+				code = straddle(ref.MustHOTP(call.Key, centre+uint64(int64(call.Dist)), d, a), ref.MustHOTP(call.Key, centre+uint64(int64(call.Dist))+1, d, a), call.N)
+			}
 			if call.SibDig != 0 && call.SibDig != d {
 				code = ref.MustHOTP(call.Key, centre+uint64(int64(call.Dist)), call.SibDig, a)
 			}
@@ -460,7 +463,7 @@ func drawC20Call(t *rapid.T) c20Call {
 	}
 	if strings.HasPrefix(c.Fn, "validate") {
 		c.Dist = rapid.IntRange(-c.Skew-2, c.Skew+2).Draw(t, "dist")
-		c.Mut = rapid.SampledFrom([]int{0, 0, 0, 0, 1, 2, 3, 4, 5, 6, 7}).Draw(t, "mut")
+		c.Mut = rapid.SampledFrom([]int{0, 0, 0, 0, 1, 2, 3, 4, 5, 6, 7, 8, 8, 9}).Draw(t, "mut")
 		if rapid.IntRange(0, 5).Draw(t, "sibDigQ") == 0 {
 			c.SibDig = rapid.SampledFrom([]int{6, 8, 9, 10, 7}).Draw(t, "sibDig")
 		}
